@@ -595,4 +595,64 @@ theorem read_back_flat (L A rest : List TagValue) (G d0 : Tag) (ts : List Tag) (
     simp [readFuel, this]; omega
   simp only [getGroup, readGroup_flat G d0 ts rest hrest es hes hn _ hfuel]
 
+
+/-! ## behind a nested group: the fixed and the original `parseGroup` (D6) -/
+
+/-- `G` is a repeating group of message type `mt` with member list `C`, one of whose members, `N`, is a nested repeating group
+    with member list `CN` (no further nesting) -/
+structure NestedGroup (d : Dicts) (mt : Bytes) (G N : Tag) (C CN : List DNode) : Prop where
+  defd : ∃ msgs fs nG nN, d.app = some msgs ∧ alFindB msgs mt = some fs ∧ dfind fs G = some nG ∧ nG.children = C ∧
+    dfind C N = some nN ∧ nN.children = CN
+  neC : C.isEmpty = false
+  neN : CN.isEmpty = false
+  leavesN : ∀ n ∈ CN, n.children.isEmpty = true
+
+theorem nested_walks {mt : Bytes} {G N : Tag} {C CN : List DNode} (hg : NestedGroup d mt G N C CN) (fields : List TagValue)
+    (hd : FieldMap) (t35 : TagValue) (hmt : MTInv fields hd t35) (hv : t35.value = mt) :
+    isNumInGroupField d fields hd [G] = true ∧ getGroupFields d fields hd [G] = C := by
+  obtain ⟨msgs, fs, nG, nN, hap, hfs, hnG, hcG, hnN, hcN⟩ := hg.defd
+  have hmf : msgFields d fields hd = some fs := by simp only [msgFields, hap, hmt.getBytes, hv, hfs]
+  have hne : nG.children.isEmpty = false := by rw [hcG]; exact hg.neC
+  have hCne : C ≠ [] := by intro e; rw [e] at hg; exact absurd hg.neC (by simp)
+  exact ⟨by simp [isNumInGroupField, hmf, pathWalk, hnG, hne], by simp [getGroupFields, hmf, pathWalk, hnG, hne, hcG, hCne]⟩
+
+/-- AFTER THE FIX (D6): a field behind a nested group that is a member of NO enclosing group ends the group: the group field
+    (count, members, nested members) is added to the body and the field itself as a body field — it is not swallowed -/
+theorem grpSwitch_fixed_exits {mt : Bytes} {G N : Tag} {C CN : List DNode} (hg : NestedGroup d mt G N C CN)
+    (fields : List TagValue) (idx j : Nat) (c : PCore) (tv g0 t35 : TagValue)
+    (hmt : MTInv fields c.header t35) (hv : t35.value = mt) (hj : fields[j]? = some g0)
+    (hmN : isGroupMember tv.tag CN = false) (hmC : isGroupMember tv.tag C = false)
+    (hh : isHeaderField d tv.tag = false) (ht : isTrailerField d tv.tag = false) (hng : NoGroupTag d tv.tag) :
+    grpSwitch Fixes.cur d fields idx tv j [G, N] CN c =
+      .ok ({ c with trailerBytes := c.rawBytes, body := (c.body.add g0.tag (.view j (idx - j))).add tv.tag (.view idx 1) }, none) := by
+  have hidxR : idxR fields j = .ok g0 := by simp [idxR, hj]
+  obtain ⟨_, hgf⟩ := nested_walks hg fields c.header t35 hmt hv
+  simp only [grpSwitch, hmN, hh, ht, isNum_false d _ _ tv.tag hng, Fixes.cur, if_true, Bool.false_eq_true, if_false,
+    List.reverse_cons, List.reverse_nil, List.nil_append, List.cons_append, popToMember, hgf, hmC, addDm, hidxR]
+
+/-- AFTER THE FIX: a field behind a nested group that is a member of the PARENT group continues the parent group
+    (the tag stack is popped to the parent) -/
+theorem grpSwitch_fixed_parent_member {mt : Bytes} {G N : Tag} {C CN : List DNode} (hg : NestedGroup d mt G N C CN)
+    (fields : List TagValue) (idx j : Nat) (c : PCore) (tv t35 : TagValue)
+    (hmt : MTInv fields c.header t35) (hv : t35.value = mt)
+    (hmN : isGroupMember tv.tag CN = false) (hmC : isGroupMember tv.tag C = true)
+    (hleaf : isNumInGroupField d fields c.header [G, tv.tag] = false)
+    (hh : isHeaderField d tv.tag = false) (ht : isTrailerField d tv.tag = false) (hng : NoGroupTag d tv.tag) :
+    grpSwitch Fixes.cur d fields idx tv j [G, N] CN c = .ok ({ c with trailerBytes := c.rawBytes }, some (.grp j [G] C)) := by
+  obtain ⟨_, hgf⟩ := nested_walks hg fields c.header t35 hmt hv
+  simp only [grpSwitch, hmN, hh, ht, isNum_false d _ _ tv.tag hng, Fixes.cur, if_true, Bool.false_eq_true, if_false,
+    List.reverse_cons, List.reverse_nil, List.nil_append, List.cons_append, popToMember, hgf, hmC, hleaf]
+
+/-- THE UNCHANGED CODE (D6): behind a nested group EVERY body field — member of an enclosing group or not — is kept inside
+    the group ("belongs to the parent" was decided by asking whether the parent is a group): `Body.Has` is false for it -/
+theorem grpSwitch_orig_swallows {mt : Bytes} {G N : Tag} {C CN : List DNode} (hg : NestedGroup d mt G N C CN)
+    (fields : List TagValue) (idx j : Nat) (c : PCore) (tv t35 : TagValue)
+    (hmt : MTInv fields c.header t35) (hv : t35.value = mt)
+    (hmN : isGroupMember tv.tag CN = false)
+    (hh : isHeaderField d tv.tag = false) (ht : isTrailerField d tv.tag = false) (hng : NoGroupTag d tv.tag) :
+    grpSwitch Fixes.orig d fields idx tv j [G, N] CN c = .ok ({ c with trailerBytes := c.rawBytes }, some (.grp j [G, N] C)) := by
+  obtain ⟨hnum, hgf⟩ := nested_walks hg fields c.header t35 hmt hv
+  simp [grpSwitch, hmN, hh, ht, isNum_false d _ _ tv.tag hng, Fixes.orig, hnum, hgf]
+
+
 end Qfx
